@@ -198,11 +198,17 @@ def focused_program(draw):
     stmts = [("try", reasons, inner, handler)]
     if draw(st.booleans()):
         stmts.append(("case", False, (((("lit", b";", "str"),), None, ()), (("else",), None, (("break", None),)))))
+        if draw(st.booleans()):
+            # an action behind the case: it lands behind the break on the else transition
+            stmts.append(("assign", "n0", ("bin", "+", ("var", "n0"), ("num", 1, "dec"))))
     if draw(st.integers(0, 3)) == 0:
         stmts.insert(0, ("appendc", "s0", ("num", 65, "dec")))
     loop = ("loop", None, tuple(stmts))
-    outer = draw(st.sampled_from(["none", "try", "loop", "lead-try", "lead-case", "lead-optional"]))
-    if outer == "try":
+    outer = draw(st.sampled_from(["none", "try", "loop", "loop-bare", "lead-try", "lead-case", "lead-optional"]))
+    if outer == "loop-bare":
+        # leaving the inner loop re-enters it without consuming anything (only legal if every way out consumes)
+        body = (("loop", "outer", (loop,)),)
+    elif outer == "try":
         body = (("try", None, (loop,), ()),)
     elif outer == "loop":
         body = (("loop", "outer", (loop, ("match", ("lit", b"!", "str")))),)
